@@ -109,10 +109,10 @@ theorem windowFill_ok {F : Nat} (hB : Below F) (s st : Nat) (o : Bool) (so : Boo
         rw [hc]
         by_cases hcond : (!buf.isEmpty && !o && st != 1) = true
         · rw [if_pos hcond, if_pos hcond]
-          simp only [StepOK]
+          simp only
           exact ⟨[], rfl, h2, by rw [Den]; exact ⟨hp, Or.inl ⟨rfl, rfl⟩⟩⟩
         · rw [if_neg hcond, if_neg hcond]
-          simp only [StepOK]
+          simp only
           refine ⟨trivial, h2, ?_⟩
           rw [Den]
           refine ⟨hp, Or.inr ⟨rfl, [], h3, ?_⟩⟩
@@ -169,8 +169,17 @@ theorem emit_concat {fuel : Nat} (hB : Below (fuel+1)) (ps : PipeList) (next : N
     (l : List V) (w : World)
     (hd : Den (.concat ps next curOpen outerOpen) l) (hw : w.Clean) :
     StepOK (emitP (fuel+1) (.concat ps next curOpen outerOpen) w) l := by
-  rw [emitP, if_neg (not_cancelled hw)]
+  rw [emitP]
   rw [Den] at hd
+  by_cases hz : ps.length = 0
+  · rw [if_pos hz]
+    rcases hd with ⟨rfl, rfl⟩ | ⟨rfl, hnext, l0, ls, hat, hrest, rfl⟩
+    · exact ⟨rfl, hw, by rw [Den]; exact Or.inl ⟨rfl, rfl⟩⟩
+    · obtain ⟨cur, hget, _⟩ := (denAt_iff ps (next-1) l0).mp hat
+      rw [get?_toList] at hget
+      have := (List.getElem?_eq_some_iff.mp hget).1
+      rw [length_toList] at this; omega
+  rw [if_neg hz, if_neg (not_cancelled hw)]
   rcases hd with ⟨rfl, rfl⟩ | ⟨rfl, hnext, l0, ls, hat, hrest, rfl⟩
   · simp only [Bool.not_false, if_true, StepOK]
     exact ⟨trivial, hw, by rw [Den]; exact Or.inl ⟨rfl, rfl⟩⟩
@@ -198,7 +207,7 @@ theorem emit_concat {fuel : Nat} (hB : Below (fuel+1)) (ps : PipeList) (next : N
       rw [get?_set_ne ps hne]
       cases hnx : ps.get? next with
       | none =>
-        simp only [StepOK]
+        simp only
         have : ps.toList.drop next = [] := by
           rw [get?_toList] at hnx
           exact List.drop_eq_nil_iff.mpr (List.getElem?_eq_none_iff.mp hnx)
